@@ -730,7 +730,8 @@ impl Ctx {
                 }
                 Ok(Err(e)) => {
                     let limit = self.depth_limits[FORMATS.iter().position(|f| f == fmt).unwrap()];
-                    let too_deep = m_depth > limit && (e.contains("recursion limit") || *fmt == "toml");
+                    // F-C20-5 as narrowed after d9992fd: only TOML's reader (81) is below the writer's limit
+                    let too_deep = *fmt == "toml" && m_depth > limit;
                     if too_deep && self.open.iter().any(|o| o == "F-C20-5") {
                         // deeper than the reader's recursion limit: serializes, cannot be read back
                         *self.known_counts.entry("F-C20-5".into()).or_insert(0) += 1;
@@ -2604,7 +2605,7 @@ fn main() {
                 !matches!(worker.request(&line, Duration::from_secs(20)), kvh::worker::Reply::Ok(s) if s == "err")
             }
             "F-C20-5" => {
-                // depth 128 through JSON, depth 82 through TOML: written, then not read back
+                // depth 82 and 127 through TOML: written, then not read back
                 let chain = |n: usize| {
                     let mut t = T::I(1);
                     for _ in 0..n - 1 {
@@ -2613,7 +2614,7 @@ fn main() {
                     T::M(vec![(T::S("a".into()), t)])
                 };
                 let mut fails = false;
-                for (fmt, n) in [("json", 128usize), ("toml", 82)] {
+                for (fmt, n) in [("toml", 82usize), ("toml", 127)] {
                     if let Ok(Ok(txt)) = cx.libs.to_string(fmt, &chain(n).to_kvalue()) {
                         fails |= !matches!(cx.libs.from_string(fmt, &txt), Ok(Ok(_)));
                     } // a refusal by to_string is explicit: not a failure of the round trip
